@@ -26,6 +26,13 @@
 //! (auto-assigned by design), `prg` while the only bank has its own filename (where does the header
 //! go), banks without any written byte, a `create-segment` segment whose address matters (its start
 //! is not documented), output-format unset with several banks (file extension / may fail).
+//!
+//! A failing configuration is reduced greedily (drop a segment / an unreferenced bank / reset one
+//! factor to its base value; single steps, then pairs of steps; every candidate is re-run on the
+//! real executable and must fail in the same way) and the signature names what is left:
+//! `layout:<what differs>:<S1|S>1>:<remaining non-base factors, placement relation>`.
+//! Debugging aids: `C09_COUNT_ONLY=1` prints the plan, `C09_SHOW=<counter>` prints the first
+//! configurations counted under that counter together with what mos did.
 
 use mvlib::{fnv, Ctx, Finding};
 use rayon::prelude::*;
@@ -178,7 +185,7 @@ impl Shape {
 
     fn factor_name(&self, idx: usize, val: u8) -> String {
         match self.locate(idx) {
-            (0, _, F_SIZE) => format!("bank.size={}", SIZE_NAMES[val as usize]),
+            (0, _, F_SIZE) => "bank.size=set".to_string(),
             (0, _, F_FILL) => "bank.fill=set".to_string(),
             (0, _, F_FILE) => "bank.filename=set".to_string(),
             (0, _, _) => format!("bank.create-segment={}", CREATE_NAMES[val as usize]),
@@ -369,14 +376,14 @@ fn model(shape: Shape, v: &Vector) -> Option<Model> {
     #[derive(Clone, Copy)]
     enum Member {
         Seg(usize),
-        CreatedUsed(usize),
+        CreatedUsed,
     }
     let mut members: Vec<Vec<Member>> = vec![vec![]; nb];
     let banks_first = g(G_DEFORDER) == 0;
     if banks_first {
         for k in 0..b {
             if opt(k, F_CREATE) == 1 {
-                members[k].push(Member::CreatedUsed(k));
+                members[k].push(Member::CreatedUsed);
             }
         }
     }
@@ -406,7 +413,7 @@ fn model(shape: Shape, v: &Vector) -> Option<Model> {
     if !banks_first {
         for k in 0..b {
             if opt(k, F_CREATE) == 1 {
-                members[k].push(Member::CreatedUsed(k));
+                members[k].push(Member::CreatedUsed);
             }
         }
     }
@@ -432,10 +439,10 @@ fn model(shape: Shape, v: &Vector) -> Option<Model> {
             .copied()
             .filter(|m| match m {
                 Member::Seg(i) => v[shape.seg(*i, F_WRITE)] == 0,
-                Member::CreatedUsed(_) => true,
+                Member::CreatedUsed => true,
             })
             .collect();
-        let has_created = writable.iter().any(|m| matches!(m, Member::CreatedUsed(_)));
+        let has_created = writable.iter().any(|m| matches!(m, Member::CreatedUsed));
         // (data, origin, lo) when determined
         let mut img: Option<(Vec<u8>, Vec<Origin>)> = None;
         let mut lo: Option<i64> = None;
@@ -1038,13 +1045,62 @@ fn final_kind(kind: &str, m: &Model) -> String {
     }
 }
 
+/// relative placement of the written segments that share a bank
+fn placement(shape: Shape, v: &Vector) -> String {
+    let m = match model(shape, v) {
+        Some(m) => m,
+        None => return "cyclic".into(),
+    };
+    let mut rel: BTreeSet<&'static str> = BTreeSet::new();
+    for j in 0..shape.s {
+        let st = v[shape.seg(j, F_START)];
+        if st == ST_PREV_END || st == ST_PREV_START || st == ST_NEXT_END {
+            rel.insert("symbolic");
+        }
+        if m.starts[j] >= 0xfffc {
+            rel.insert("top-of-memory");
+        }
+        for i in 0..j {
+            if v[shape.seg(i, F_BANK)] != v[shape.seg(j, F_BANK)]
+                || v[shape.seg(i, F_WRITE)] == 1
+                || v[shape.seg(j, F_WRITE)] == 1
+            {
+                continue;
+            }
+            let d = m.starts[j] - m.starts[i];
+            rel.insert(match d.abs() {
+                0 => "same-start",
+                1..=3 => "overlap",
+                4 => "adjacent",
+                _ => "gap",
+            });
+            if d < 0 {
+                rel.insert("later-below");
+            }
+        }
+    }
+    if rel.is_empty() {
+        "no-pair".into()
+    } else {
+        rel.into_iter().collect::<Vec<_>>().join(",")
+    }
+}
+
 fn config_class(shape: Shape, v: &Vector) -> String {
     let base = shape.base();
     let mut names: BTreeSet<String> = BTreeSet::new();
+    let mut start_deviates = false;
     for idx in 0..shape.len() {
         if v[idx] != base[idx] {
-            names.insert(shape.factor_name(idx, v[idx]));
+            if matches!(shape.locate(idx), (1, _, F_START)) {
+                start_deviates = true;
+            } else {
+                names.insert(shape.factor_name(idx, v[idx]));
+            }
         }
+    }
+    if start_deviates {
+        names.insert(format!("placement={}", placement(shape, v)));
     }
     let devs = if names.is_empty() {
         "base".to_string()
@@ -1320,6 +1376,61 @@ fn replay(ctx: &Ctx, case: &Value) -> i32 {
     0
 }
 
+/// the model on three hand-computed layouts (machinery check, not a verdict)
+fn model_self_check() -> Result<(), String> {
+    // one bank, s1 $1000, s2 $1004, s3 $2000, format unset -> prg
+    let sh = Shape { b: 1, s: 3 };
+    let m = model(sh, &sh.base()).ok_or("base not well formed")?;
+    let mut want = vec![0x00, 0x10, 0x10, 0x11, 0x12, 0x13, 0x20, 0x21, 0x22, 0x23];
+    want.extend(vec![0u8; 0x2000 - 0x1008]);
+    want.extend([0x30, 0x31, 0x32, 0x33]);
+    if m.verdict != (Verdict::Builds { tolerate_failure: None })
+        || m.files.len() != 1
+        || m.files[0].name != "main.prg"
+        || m.files[0].bytes != want
+    {
+        return Err("canonical one-bank layout".into());
+    }
+    // overlap ($1002 after $1000), segment below ($0ffe), fill $ff, size +4, bin, out.x
+    let sh = Shape { b: 1, s: 3 };
+    let mut v = sh.base();
+    v[sh.seg(1, F_START)] = 2;
+    v[sh.seg(2, F_START)] = 3;
+    v[sh.bank(0, F_FILL)] = 2;
+    v[sh.bank(0, F_SIZE)] = 2;
+    v[sh.glob(G_FORMAT)] = 2;
+    v[sh.glob(G_OUTNAME)] = 1;
+    let m = model(sh, &v).ok_or("not well formed")?;
+    // $0ffe: 30 31 | $1000: 32 33 (s3 over s1) | $1002: 20 21 (s2 over s1) | $1004: 22 23 | pad
+    let want = vec![0x30, 0x31, 0x32, 0x33, 0x20, 0x21, 0x22, 0x23, 0xff, 0xff, 0xff, 0xff];
+    if m.files.len() != 1 || m.files[0].name != "out.x" || m.files[0].bytes != want || m.sizes[0] != Some(12) {
+        return Err("overlap/below/pad layout".into());
+    }
+    // two banks, second with its own file; s1 -> b1, s2 -> b2 write=false s3 -> b2
+    let sh = Shape { b: 2, s: 3 };
+    let mut v = sh.base();
+    v[sh.bank(1, F_FILE)] = 1;
+    v[sh.seg(1, F_WRITE)] = 1;
+    let m = model(sh, &v).ok_or("not well formed")?;
+    if m.files.len() != 2
+        || m.files[0].name != "main.bin"
+        || m.files[0].bytes != vec![0x10, 0x11, 0x12, 0x13]
+        || m.files[1].name != "a.bin"
+        || m.files[1].bytes != vec![0x30, 0x31, 0x32, 0x33]
+    {
+        return Err("two-file layout".into());
+    }
+    // data beyond $ffff
+    let sh = Shape { b: 0, s: 1 };
+    let mut v = sh.base();
+    v[sh.seg(0, F_START)] = 8;
+    let m = model(sh, &v).ok_or("not well formed")?;
+    if m.verdict != Verdict::Error("out-of-range".into()) {
+        return Err("out-of-range".into());
+    }
+    Ok(())
+}
+
 struct PlanItem {
     shape: Shape,
     /// radius of the ball around the canonical base
@@ -1373,12 +1484,13 @@ fn plan(thorough: bool) -> Plan {
         for b in 0..=3usize {
             for s in 1..=4usize {
                 let canon = match (b, s) {
-                    (0..=1, 1..=2) | (2, 1) => 4,
+                    (0, 1..=2) | (1, 1) => 4,
                     (2..=3, 4) => 2,
                     _ => 3,
                 };
                 let r = match (b, s) {
                     (3, 2) => Some(1),
+                    (2, 2) => Some(1),
                     (_, 1) | (_, 2) => Some(2),
                     (_, 3) => Some(1),
                     _ => Some(0),
@@ -1420,6 +1532,10 @@ pub fn run(ctx: &Ctx, replay_case: Option<&Value>) -> i32 {
         return 2;
     }
     let _ = std::fs::create_dir_all(&rn.scratch);
+    if let Err(e) = model_self_check() {
+        eprintln!("C09: MACHINERY: layout model self-check failed: {}", e);
+        return 2;
+    }
     let thorough = ctx.tier.is_thorough();
     let pl = plan(thorough);
 
@@ -1484,8 +1600,19 @@ pub fn run(ctx: &Ctx, replay_case: Option<&Value>) -> i32 {
     let shown = AtomicU64::new(0);
     let bytes_compared = AtomicU64::new(0);
 
+    // safety net against a runaway run on an overloaded machine (far above the tier budgets of
+    // 30 s / 5 min): configurations skipped here make the run non-exhaustive (`caps_hit`)
+    let deadline_s: f64 = std::env::var("C09_DEADLINE_S")
+        .ok()
+        .and_then(|s| s.parse().ok())
+        .unwrap_or(if thorough { 1500.0 } else { 240.0 });
+    let skipped_deadline = AtomicU64::new(0);
     cases.par_iter().for_each(|(shape, v)| {
         if rn.machinery_failed.load(Ordering::Relaxed) {
+            return;
+        }
+        if ctx.wall() > deadline_s {
+            skipped_deadline.fetch_add(1, Ordering::Relaxed);
             return;
         }
         let m = match model(*shape, v) {
@@ -1563,6 +1690,13 @@ pub fn run(ctx: &Ctx, replay_case: Option<&Value>) -> i32 {
             rn.machinery_msg.lock().unwrap().clone().unwrap_or_default()
         );
         return 2;
+    }
+    let skipped = skipped_deadline.load(Ordering::Relaxed);
+    if skipped > 0 {
+        ctx.cap(format!(
+            "deadline of {} s reached: {} enumerated configurations were not run",
+            deadline_s, skipped
+        ));
     }
     ctx.set("distinct_observed_outcomes", json!(outcomes.lock().unwrap().len()));
     ctx.set("error_classes_demanded", json!(error_classes.lock().unwrap().clone()));
